@@ -101,17 +101,18 @@ Definition skippable (buf : list N) : option N :=
   | _ => None
   end.
 
-(* RtrCodec::decode: Some (message, rest of the buffer) | None = Ok(None), "need more bytes" *)
-Fixpoint decode (fx : fixes) (fuel : nat) (buf : list N) : option (msg * list N) :=
+(* RtrCodec::decode: (Some message | None = Ok(None), "need more bytes"; the buffer afterwards).
+   Every skipped PDU has at least 8 bytes, so [length buf] fuel is always enough. *)
+Fixpoint decode (fx : fixes) (fuel : nat) (buf : list N) : option msg * list N :=
   match from_bytes buf with
-  | Some (m, len) => Some (m, skipn (N.to_nat len) buf)
+  | Some (m, len) => (Some m, skipn (N.to_nat len) buf)
   | None =>
       if fx_skip fx then
         match skippable buf, fuel with
         | Some len, S fuel' => decode fx fuel' (skipn (N.to_nat len) buf)
-        | _, _ => None
+        | _, _ => (None, buf)
         end
-      else None
+      else (None, buf)
   end.
 
 (* Message::to_bytes for the two queries the client sends (codec version 1) *)
@@ -168,6 +169,11 @@ Definition on_msg (fx : fixes) (src : N) (st : cstate) (t : rtab) (m : msg) : cs
   | _ => (st, t, [])
   end.
 
+Definition with_buf (st : cstate) (b : list N) : cstate :=
+  {| c_v := c_v st; c_eod := c_eod st; c_sid := c_sid st; c_serial := c_serial st;
+     c_eod_count := c_eod_count st; c_up := c_up st; c_buf := b;
+     c_permit := c_permit st; c_done := c_done st; c_open := c_open st |}.
+
 (* Framed::next in a loop: decode until the codec wants more bytes *)
 Fixpoint drain (fx : fixes) (fuel : nat) (src : N) (st : cstate) (t : rtab) (sent : list N)
   : cstate * rtab * list N :=
@@ -175,20 +181,12 @@ Fixpoint drain (fx : fixes) (fuel : nat) (src : N) (st : cstate) (t : rtab) (sen
   | O => (st, t, sent)
   | S fuel' =>
       match decode fx (length (c_buf st)) (c_buf st) with
-      | None => (st, t, sent)
-      | Some (m, rest) =>
-          let st1 := {| c_v := c_v st; c_eod := c_eod st; c_sid := c_sid st; c_serial := c_serial st;
-                        c_eod_count := c_eod_count st; c_up := c_up st; c_buf := rest;
-                        c_permit := c_permit st; c_done := c_done st; c_open := c_open st |} in
-          let '(st2, t2, out) := on_msg fx src st1 t m in
+      | (None, rest) => (with_buf st rest, t, sent)
+      | (Some m, rest) =>
+          let '(st2, t2, out) := on_msg fx src (with_buf st rest) t m in
           drain fx fuel' src st2 t2 (sent ++ out)
       end
   end.
-
-Definition with_buf (st : cstate) (b : list N) : cstate :=
-  {| c_v := c_v st; c_eod := c_eod st; c_sid := c_sid st; c_serial := c_serial st;
-     c_eod_count := c_eod_count st; c_up := c_up st; c_buf := b;
-     c_permit := c_permit st; c_done := c_done st; c_open := c_open st |}.
 
 Definition with_permit (st : cstate) (p : bool) : cstate :=
   {| c_v := c_v st; c_eod := c_eod st; c_sid := c_sid st; c_serial := c_serial st;
